@@ -12,7 +12,7 @@ from . import tir as T
 from .automata import NFA, included
 from .core import Anchor
 from .ebnf import Grammar
-from .facts import VERIF
+from .facts import VERIF, walk
 
 # renderer (method name) -> nonterminal symbol at which the expansion is cut
 NONTERMINALS = {
@@ -62,8 +62,15 @@ class Builder:
         self.a = NFA()
         self.stack = []
         self.entry_name = entry_name
+        self.fixed = {}          # correlated boolean guards of the current function activation: guard text -> taken
+        self.bind = {}           # &str parameters of the current activation bound to a string literal by the caller
+        self.assigned = set()
+        self.excl = {}           # local -> enum variants it cannot hold here (an enclosing / calling match took them elsewhere)
+        import json
+        self.domain = {(e["fn"], e["guard"]): e["value"] for e in json.load(open(os.path.join(VERIF, "specs", "domain.json")))["entries"] if e["dialect"] == dialect}
+        self.domain_used = set()
 
-    def fn_fragment(self, fname, sink, s, e, top=False):
+    def fn_fragment(self, fname, sink, s, e, top=False, bind=None, excl=None):
         if (fname, sink) in self.stack:
             raise Anchor("recursion through %s is not cut by a nonterminal" % fname)
         if len(self.stack) > 24:
@@ -71,38 +78,182 @@ class Builder:
         self.stack.append((fname, sink))
         t, S = self.linker.body(fname, sink)
         S = stmt.sepify(S)
+        saved = (self.fixed, self.bind, self.assigned, self.excl)
+        self.fixed, self.bind = {}, dict(bind or {})
+        self.excl = dict(excl or {})
+        self.assigned = {H.place(n["lhs"]) for n in walk(t.body) if n.get("k") in ("assign", "assign_op") and n.get("lhs") is not None}
         self.build(S, s, e, e, fname)
+        self.fixed, self.bind, self.assigned, self.excl = saved
         self.stack.pop()
+
+    def corr_guard(self, x):
+        """guard text of a two-way `if flag {..} else {..}` on an immutable boolean local, else None"""
+        if x[0] != "alt" or len(x[1]) != 2:
+            return None
+        (g1, _), (g2, _) = x[1]
+        if g1.get("text") != g2.get("text") or "taken" not in g1 or "taken" not in g2 or g1["taken"] == g2["taken"]:
+            return None
+        e = g1.get("e")
+        neg = False
+        while isinstance(e, dict) and e.get("k") == "unary" and e.get("op") in ("Not", "!"):
+            e = e["e"]
+        e = H.peel_ref(e) if isinstance(e, dict) else e
+        if not (isinstance(e, dict) and e.get("k") == "local"):
+            return None
+        if e["name"] in self.assigned:
+            return None
+        return g1["text"]
+
+    def index_guard(self, gd):
+        """value of a guard `i > 0` / `i != 0` / `i == 0` on a loop index bound by an enclosing enumerate loop"""
+        m = re.match(r"^\(?(\w+) (>|!=|==) 0\)?$", gd.get("text") or "")
+        if not m or "taken" not in gd or self.bind.get(m.group(1)) not in ("#first", "#rest"):
+            return None
+        first = self.bind[m.group(1)] == "#first"
+        return first if m.group(2) == "==" else not first
+
+    def build_seq(self, items, s, e, fn_end, fname):
+        a = self.a
+        if not items:
+            a.add_eps(s, e)
+            return
+        cur = s
+        for i, x in enumerate(items):
+            g = self.corr_guard(x)
+            if g is not None and g not in self.fixed and any(self.corr_guard(y) == g for y in items[i + 1:]):
+                for val in (True, False):
+                    self.fixed[g] = val
+                    self.build_seq(items[i:], cur, e, fn_end, fname)
+                    del self.fixed[g]
+                return
+            nxt = e if i == len(items) - 1 else a.state()
+            self.build(x, cur, nxt, fn_end, fname)
+            cur = nxt
 
     def build(self, S, s, e, fn_end, fname):
         a = self.a
         k = S[0]
         if k == "seq":
-            items = [x for x in S[1]]
-            if not items:
-                a.add_eps(s, e)
-                return
-            cur = s
-            for i, x in enumerate(items):
-                nxt = e if i == len(items) - 1 else a.state()
-                self.build(x, cur, nxt, fn_end, fname)
-                cur = nxt
+            items = []
+
+            def flat(x):
+                if x[0] == "seq":
+                    for y in x[1]:
+                        flat(y)
+                else:
+                    items.append(x)
+            flat(S)
+            self.build_seq(items, s, e, fn_end, fname)
         elif k == "alt":
             if not S[1]:
                 a.add_eps(s, e)
-            for g, x in S[1]:
+            g = self.corr_guard(S)
+            scrut = None
+            specific = set()
+
+            def irrefutable(ps):
+                return all(x.get("k") in ("bind", "wild") for x in ps or [])
+
+            def pat_path(pt):
+                """(variant,) or (variant, inner variant) for a pattern that matches exactly that shape, else None"""
+                if pt.get("k") != "variant":
+                    return None
+                pd = (pt.get("path") or {}).get("def")
+                subs = pt.get("subs") or []
+                if pd is None:
+                    return None
+                if irrefutable(subs):
+                    return (pd,)
+                if len(subs) == 1 and subs[0].get("k") == "variant" and irrefutable(subs[0].get("subs")):
+                    ipd = (subs[0].get("path") or {}).get("def")
+                    return (pd, ipd) if ipd else None
+                return None
+            for gd, x in S[1]:
+                if isinstance(gd.get("scrut"), dict) and isinstance(gd.get("pat"), dict):
+                    scrut = (H.place(gd["scrut"]) or "").lstrip("*&") or None
+                    pp = pat_path(gd["pat"])
+                    if pp and gd.get("arm_guard") is None:
+                        specific.add(pp)
+            for gd, x in S[1]:
+                if g is not None and g in self.fixed and gd["taken"] != self.fixed[g]:
+                    continue
+                pt_, sc_ = gd.get("pat"), scrut
+                ge = gd.get("e")
+                if not isinstance(pt_, dict) and isinstance(ge, dict) and ge.get("k") == "let" and gd.get("taken") is True:
+                    pt_ = ge.get("pat")
+                    sc_ = (H.place(ge.get("init")) or "").lstrip("*&") or None
+                if sc_ is not None and isinstance(pt_, dict):
+                    scrut_here = sc_
+                    pt = pt_
+                    pp = pat_path(pt)
+                    ex = self.excl.get(scrut_here, ())
+                    if pp and (pp in ex or pp[:1] in ex):
+                        continue
+                    if pt.get("k") in ("wild", "bind") and specific:
+                        old = self.excl.get(scrut_here)
+                        self.excl[scrut_here] = set(old or ()) | specific
+                        self.build(x, s, e, fn_end, fname)
+                        if old is None:
+                            del self.excl[scrut_here]
+                        else:
+                            self.excl[scrut_here] = old
+                        continue
+                    # `Some(inner)`: what is excluded for the payload
+                    subs = pt.get("subs") or []
+                    if pp and len(pp) == 1 and len(subs) == 1 and subs[0].get("k") == "bind":
+                        inner = {q[1:] for q in ex if len(q) == 2 and q[0] == pp[0]}
+                        if inner:
+                            nm = subs[0]["name"]
+                            old = self.excl.get(nm)
+                            self.excl[nm] = inner
+                            self.build(x, s, e, fn_end, fname)
+                            if old is None:
+                                del self.excl[nm]
+                            else:
+                                self.excl[nm] = old
+                            continue
+                dv = self.domain.get((fname.rsplit("::", 1)[-1], re.sub(r"\s+", " ", gd.get("text") or "")))
+                if dv is not None and "taken" in gd and gd["taken"] != dv:
+                    self.domain_used.add((fname.rsplit("::", 1)[-1], gd.get("text")))
+                    continue
+                iv = self.index_guard(gd)
+                if iv is not None and iv != gd.get("taken"):
+                    continue
                 self.build(x, s, e, fn_end, fname)
         elif k in ("loop", "star", "star1"):
+            # one or more iterations: an empty clause list is a builder state the guards rule (R3) decides, not this one
+            info = S[2] if len(S) > 2 and isinstance(S[2], dict) else {}
+            idx = None
+            if (info.get("over") or "").endswith(".enumerate()") and isinstance(info.get("pat"), dict):
+                binds = [n["name"] for n in walk(info["pat"]) if n.get("k") == "bind"]
+                idx = binds[0] if len(binds) == 2 else None
+            if idx is not None:
+                # first iteration (index 0) then the others (index > 0)
+                m0, m1, m2 = a.state(), a.state(), a.state()
+                old = self.bind.get(idx)
+                self.bind[idx] = "#first"
+                self.build(S[1], s, m0, fn_end, fname)
+                self.bind[idx] = "#rest"
+                a.add_eps(m0, e)
+                a.add_eps(m0, m1)
+                self.build(S[1], m1, m2, fn_end, fname)
+                a.add_eps(m2, m1)
+                a.add_eps(m2, e)
+                if old is None:
+                    del self.bind[idx]
+                else:
+                    self.bind[idx] = old
+                return
             m1, m2 = a.state(), a.state()
             a.add_eps(s, m1)
             self.build(S[1], m1, m2, fn_end, fname)
             a.add_eps(m2, m1)
             a.add_eps(m2, e)
-            a.add_eps(s, e)
+            if k == "star":
+                a.add_eps(s, e)
         elif k == "sepby":
-            # body (sep body)*  | empty
+            # body (sep body)*
             m1, m2, m3 = a.state(), a.state(), a.state()
-            a.add_eps(s, e)
             a.add_eps(s, m1)
             self.build(S[1], m1, m2, fn_end, fname)
             a.add_eps(m2, e)
@@ -112,6 +263,24 @@ class Builder:
             toks = lex(S[1])
             self.tokens(toks, s, e, {"fn": fname, "lit": S[1]})
         elif k == "hole":
+            what = ((S[2] or {}).get("what") or "")
+            if what.startswith("local ") and what[6:] in self.bind:
+                self.tokens(lex(self.bind[what[6:]]), s, e, {"fn": fname, "lit": self.bind[what[6:]], "sp": S[3]})
+                return
+            if what.startswith("local ") and S[1] == "STR":
+                lits = self.local_literals(fname, what[6:])
+                if lits:
+                    for w in lits:
+                        self.tokens(lex(w), s, e, {"fn": fname, "lit": w, "sp": S[3]})
+                    return
+            d = S[2] or {}
+            nd = d.get("of") if isinstance(d.get("of"), dict) else d.get("node")
+            if S[1] in ("UNKNOWN", "STR") and isinstance(nd, dict) and nd.get("k") in ("match", "if"):
+                lits = self.expr_literals(nd, d.get("idx", -1) if d.get("idx") is not None else -1)
+                if lits:
+                    for w in lits:
+                        self.tokens(lex(w), s, e, {"fn": fname, "lit": w, "sp": S[3]})
+                    return
             sym = HOLE_SYMBOL.get(S[1], "<raw>")
             a.add(s, sym, e, {"fn": fname, "hole": S[1], "what": (S[2] or {}).get("what"), "sp": S[3]})
         elif k == "callv":
@@ -140,7 +309,18 @@ class Builder:
             if cs is None:
                 a.add_eps(s, e)
                 return
-            self.fn_fragment(target, cs, s, e)
+            bind = {}
+            excl = {}
+            tt = T.fn_tir(self.f, target)
+            for i, an in enumerate(S[2].get("arg_nodes") or []):
+                v = H.peel_ref(an) if isinstance(an, dict) else None
+                if isinstance(v, dict) and v.get("k") == "lit" and v["lit"]["t"] == "str" and i < len(tt.params) and tt.params[i][0]:
+                    bind[tt.params[i][0]] = v["lit"]["v"]
+                elif isinstance(v, dict) and v.get("k") == "local" and v["name"] in self.bind and i < len(tt.params) and tt.params[i][0]:
+                    bind[tt.params[i][0]] = self.bind[v["name"]]
+                if isinstance(v, dict) and v.get("k") == "local" and v["name"] in self.excl and i < len(tt.params) and tt.params[i][0]:
+                    excl[tt.params[i][0]] = self.excl[v["name"]]
+            self.fn_fragment(target, cs, s, e, bind=bind, excl=excl)
         elif k == "ctl":
             if S[1] == "ret":
                 a.add_eps(s, fn_end)
@@ -165,6 +345,60 @@ class Builder:
             nxt = e if i == len(toks) - 1 else a.state()
             a.add(cur, tk, nxt, info)
             cur = nxt
+
+    def local_literals(self, fname, name):
+        """string literals an immutable local can hold when it is bound by `let x = match/if {.. => "LIT"}` or by a tuple
+        pattern over arms that yield tuples with a literal in that position"""
+        fn = self.f.fns.get(fname)
+        if not fn or fn.get("hir") is None or name in self.assigned:
+            return None
+        out = None
+        for n in walk(fn["hir"]):
+            if n.get("k") != "stmt_let" or n.get("init") is None:
+                continue
+            pat = n["pat"]
+            idx = None
+            if pat.get("k") == "bind" and pat.get("name") == name:
+                idx = -1
+            elif pat.get("k") == "tuple":
+                for i, sp in enumerate(pat["subs"]):
+                    if sp.get("k") == "bind" and sp.get("name") == name:
+                        idx = i
+            if idx is None:
+                continue
+            if out is not None:
+                return None      # bound twice (shadowing): not decided
+            vals = self.expr_literals(n["init"], idx)
+            if not vals:
+                return None
+            out = vals
+        return out
+
+    def expr_literals(self, init, idx):
+        if True:
+            vals = []
+
+            def leaves(e):
+                e = H.peel_ref(e)
+                if e.get("k") == "match":
+                    for a in e["arms"]:
+                        leaves(a["body"])
+                elif e.get("k") == "if" and e.get("els") is not None:
+                    leaves(e["then"]); leaves(e["els"])
+                elif e.get("k") == "block" and e.get("expr") is not None and not e.get("stmts"):
+                    leaves(e["expr"])
+                else:
+                    if idx >= 0:
+                        if e.get("k") == "tuple" and idx < len(e.get("es") or []):
+                            e = H.peel_ref(e["es"][idx])
+                        else:
+                            vals.append(None)
+                            return
+                    vals.append(e["lit"]["v"] if e.get("k") == "lit" and e["lit"]["t"] == "str" else None)
+            leaves(init)
+            if not vals or any(v is None for v in vals):
+                return None
+            return vals
 
     def literal_results(self, target):
         """string literals a function returns on all its paths (keyword hooks such as insert_default_keyword)"""
@@ -195,16 +429,34 @@ def grammar(dialect):
     return _grammars[dialect]
 
 
+def prov_key(prov):
+    if not prov:
+        return "?"
+    fn = (prov.get("fn") or "?").rsplit("::", 1)[-1]
+    if prov.get("lit") is not None:
+        what = "'" + " ".join(prov["lit"].split()) + "'"
+    elif prov.get("hole"):
+        what = "<%s:%s>" % (prov["hole"], prov.get("what") or "")
+    elif prov.get("call"):
+        what = "call:" + prov["call"].rsplit("::", 1)[-1]
+    else:
+        what = "buf"
+    return (fn + ":" + what).replace(" ", "_")
+
+
 def check_production(run, rule, f, cfg, dialect, trait, method, production):
+    """one obligation per (dialect, production); every distinct offending emission is reported under its own key
+    `grammar:<dialect>:<production>:<function>:<token source>` so that a known finding suppresses only itself"""
     g = grammar(dialect)
+    okey = "grammar:%s:%s" % (dialect, production)
     if production not in g.ast:
         run.anchor(rule, "%s:%s" % (dialect, production), "no production `%s` in specs/%s.ebnf" % (production, dialect), cfg)
-        return
+        return 0
     linker = L.Linker(f, dialect)
     target = linker.resolve(trait + "::" + method)
     if target is None:
-        run.ob(rule, "grammar:%s:%s" % (dialect, production), False, "%s: renderer %s not found" % (dialect, method), cfg=cfg)
-        return
+        run.ob(rule, okey, False, "%s: renderer %s not found" % (dialect, method), cfg=cfg)
+        return 0
     t = T.fn_tir(f, target)
     sinks = [s for s, k in t.sinks.items() if k == "writer"]
     b = Builder(f, dialect, method)
@@ -212,17 +464,34 @@ def check_production(run, rule, f, cfg, dialect, trait, method, production):
     try:
         b.fn_fragment(target, sinks[0], s, e, top=True)
         ga, gs, ge = g.nfa(production)
-        cex = included(b.a, s, e, ga, gs, ge)
     except (Anchor, RuntimeError, ValueError) as ex:
-        run.ob(rule, "grammar:%s:%s" % (dialect, production), False, "%s: grammar refinement of %s could not be decided: %s" % (dialect, method, ex), cfg=cfg)
-        return
-    if cex is None:
-        run.ob(rule, "grammar:%s:%s" % (dialect, production), True,
-               "%s: every token string %s can write (%d NFA states, all guards free) is derivable from `%s` of specs/%s.ebnf" % (dialect, method, b.a.n, production, dialect),
-               sp=t.fn["sp"], cfg=cfg)
-    else:
-        word, prov = cex
-        run.ob(rule, "grammar:%s:%s" % (dialect, production), False,
-               "%s: %s can write `%s`, which `%s` of specs/%s.ebnf does not derive (offending token written by %s)" % (
-                   dialect, method, " ".join(word), production, dialect, (prov or {}).get("fn", "?").rsplit("::", 1)[-1] + ((" at " + prov["sp"]) if prov and prov.get("sp") else "")),
-               sp=(prov or {}).get("sp") or t.fn["sp"], cfg=cfg, detail={"word": word, "provenance": {k: v for k, v in (prov or {}).items() if k != "node"}})
+        run.ob(rule, okey, False, "%s: grammar refinement of %s could not be decided: %s" % (dialect, method, ex), cfg=cfg)
+        return 0
+    skipped = set()
+    found = 0
+    for _ in range(12):
+        try:
+            cex = included(b.a, s, e, ga, gs, ge, skip=lambda info: prov_key(info) in skipped)
+        except RuntimeError as ex:
+            run.ob(rule, okey, False, "%s: grammar refinement of %s could not be decided: %s" % (dialect, method, ex), cfg=cfg)
+            return 0
+        if cex is None:
+            break
+        word, prov, pos = cex
+        pk = prov_key(prov)
+        found += 1
+        shown = " ".join(word[:pos]) + " >>" + (word[pos] if pos < len(word) else "") + "<< " + " ".join(word[pos + 1:])
+        run.ob(rule, "%s:%s" % (okey, pk), False,
+               "%s: %s can write `%s`, which `%s` of specs/%s.ebnf does not derive; the marked token is written by %s%s" % (
+                   dialect, method, shown.strip(), production, dialect, (prov or {}).get("fn", "?").rsplit("::", 1)[-1],
+                   (" (" + repr(prov.get("lit")) + ")") if prov and prov.get("lit") is not None else ""),
+               sp=(prov or {}).get("sp") or t.fn["sp"], cfg=cfg, detail={"word": word, "position": pos, "source": pk})
+        if pk in skipped or pk == "?":
+            break
+        skipped.add(pk)
+    run.ob(rule, okey, True,
+           "%s: %s token strings %s can write (NFA of %d states from the linked template IR, guards free except correlated flags) "
+           "are derivable from `%s` of specs/%s.ebnf%s" % (dialect, "all" if not found else "apart from the reported emissions, the", method, b.a.n, production, dialect,
+                                                          ("; feature-set assumptions used: " + ", ".join("%s[%s]" % x for x in sorted(b.domain_used))) if b.domain_used else ""),
+           sp=t.fn["sp"], cfg=cfg)
+    return b.a.n
